@@ -20,6 +20,8 @@ def klass(name):
         return "unprintable"
     if name == "errx":
         return "err"
+    if name.startswith("DC"):
+        return "dataclass"
     if name == "Vobj":
         return "object"
     if name in ("R12", "M12"):
